@@ -338,3 +338,7 @@ FAMILIES["checker"] = {
         ]},
     ],
 }
+
+# relative cost of one harness, used to share the cores out between families that run side by side
+for _f, _c in (("arrmeth", 6), ("map", 6), ("mapbuild", 6), ("frames", 4)):
+    FAMILIES[_f]["cost"] = _c
